@@ -13,7 +13,7 @@ PLAN_ENTRY = {'stages': [
     ]}
 
 CLAIM = {
-    'text': 'TLC enumerates watertight lattice solids (box, tetrahedron, octagonal prism, L-shaped prism, two disjoint boxes) and open meshes (quad, open tube) x planes with 5/7 integer normals x offsets below, inside (3) and above the solid that miss every vertex x exact rigid motions applied to mesh and plane together; it model-checks that no vertex is on the plane, that each crossed face has exactly two crossed edges, and that the L2 transcription of chained_indices applied to the oriented face segments of a watertight consistently wound mesh yields exactly closed chains using every segment once. Every case runs Mesh::section / Mesh::split in a limited child process and TLC judges: every curve vertex is the exact rational crossing point of a crossed edge (hence on plane and surface, also after the motion), consecutive vertices are joined across one face, every face segment is used exactly once, all curves are closed for watertight input, one loop for convex solids; split reports Negative/Positive/Pair exactly by the vertex sides, the parts lie on their own sides and their areas add up. Seeded random boxes/prisms with random planes and motions extend the set. An 80-sided prism cut with a caller\'s curve tolerance of 1.25..4 units is judged by TolLoopOK: one curve through exact crossing points in loop order, every crossing point left out within the tolerance of the vertex kept before it, closing up to the tolerance.',
+    'text': 'TLC enumerates watertight lattice solids (box, tetrahedron, octagonal prism, L-shaped prism, two disjoint boxes) and open meshes (quad, open tube) x planes with 5/7 integer normals x offsets below, inside (3) and above the solid that miss every vertex x exact rigid motions applied to mesh and plane together; it model-checks that no vertex is on the plane, that each crossed face has exactly two crossed edges, and that the L2 transcription of chained_indices applied to the oriented face segments of a watertight consistently wound mesh yields exactly closed chains using every segment once. Every case runs Mesh::section / Mesh::split in a limited child process and TLC judges: every curve vertex is the exact rational crossing point of a crossed edge (hence on plane and surface, also after the motion), consecutive vertices are joined across one face, every face segment is used exactly once, all curves are closed for watertight input, one loop for convex solids; split reports Negative/Positive/Pair exactly by the vertex sides, the parts lie on their own sides and their areas add up. Seeded random boxes/prisms with random planes and motions extend the set. An 80-sided prism cut with a caller\'s curve tolerance of 1.25..4 units is judged by TolLoopOK: one curve through exact crossing points in loop order, every crossing point left out within the tolerance of the vertex kept before it, closing up to the tolerance. Scenes carried 2^20 lattice units from the origin (also at scale 2^-10) are included, and the length a curve reports is judged against the polygon through its reported vertices (relative residual).',
     'design_ref': 'DESIGN.md section 6 C13',
     'note': 'Trusted: TLC, harness projection (2^-12 unit), nalgebra for un-moving split parts. Known finding F21 (parry3d hang on open meshes whose boundary meets the plane) is reported as KNOWN-FINDING by its exact structural signature.',
     'technique': 'TLA+ spec (L1 semantics, L2 chain transcription) + TLC: bounded model checking, TLC-generated cases replayed into engeom, TLC trace validation of recorded observations',
